@@ -10,12 +10,13 @@ def op(name, o=0, p=0, t=0):
     return {"op": name, "o": o, "p": p, "t": t}
 
 
-def new_prog(rec=(), cap=(), ncv=0, bar=(), actors=(), hosts=0, perm=(), nmq=0, timed=True, spawn=None, gran="run"):
+def new_prog(rec=(), cap=(), ncv=0, bar=(), actors=(), hosts=0, perm=(), nmq=0, timed=True, spawn=None, gran="run", lat=0):
     """perm[b] = permanent receiver (actor number, 0 = none) of mailbox b+1; timed = exact durations (one host per actor,
     dedicated FATPIPE link, 1 byte = 1 tick, 1 exec unit = 1 tick)."""
     return {"rec": list(rec), "cap": list(cap), "ncv": ncv, "bar": list(bar), "hosts": hosts or max(1, len(actors)),
             "perm": list(perm), "nmq": nmq, "timed": bool(timed), "actors": [list(a) for a in actors],
-            "spawn": [bool(x) for x in spawn] if spawn is not None else [False] * len(actors), "gran": gran}
+            "spawn": [bool(x) for x in spawn] if spawn is not None else [False] * len(actors), "gran": gran,
+            "lat": lat}      # latency of the link in ticks (timed platform): a communication lasts lat + size
 
 
 TIMED_CFG = ["--cfg=network/model:CM02", "--cfg=network/crosstraffic:0"]
@@ -29,7 +30,7 @@ def prog_to_txt(p, tick_exp=10):
     out += ["@bar %d" % b for b in p["bar"]]
     out += ["@mbox %d" % r for r in p.get("perm", [])]
     out += ["@mq"] * p.get("nmq", 0)
-    out += ["@timed %d" % (1 if p.get("timed", True) else 0)]
+    out += ["@timed %d" % (1 if p.get("timed", True) else 0), "@lat %d" % p.get("lat", 0)]
     for i, a in enumerate(p["actors"]):
         out.append("@actor %d %d" % (i % max(1, p.get("hosts", 1)), 1 if p.get("spawn", [False] * 99)[i] else 0))
         for o in a:
